@@ -200,6 +200,7 @@ func ruleLatencyStart(r *Run) {
 	if r.broken() {
 		return
 	}
+	r.measurementObjectFresh()
 	fn := r.modelFunc("websocket.(*RealtimeHandler).HandleSignedLatency")
 	start := r.fn(pkgModels, "SignedLatency", "Start")
 	if fn == nil || start == nil {
@@ -1281,4 +1282,82 @@ func ruleDeadlines(r *Run) {
 	if n == 0 {
 		r.Check("G9", "no-connection-deadlines", true, 0, "no function of the repository sets a deadline on the client connection (all non-test functions scanned)")
 	}
+}
+
+// measurementObjectFresh (I2): the measurement object of a participant is created with that participant. A
+// participant literal whose SignedLatency is anything but a literal created there (directly, or through a local
+// that is only ever given such literals) carries a measurement over from another participant: pings issued in
+// one session are then accepted, and reported under that session's id, for a client that has moved on.
+func (r *Run) measurementObjectFresh() {
+	pt := r.P.LookupType(pkgModels, "Participant")
+	if pt == nil {
+		return
+	}
+	n := 0
+	for _, fn := range r.P.All {
+		if fn.Body == nil || fn.Pkg.PkgPath != pkgWS {
+			continue
+		}
+		info := fn.Info()
+		isFreshLit := func(x ast.Expr) bool {
+			x = ast.Unparen(x)
+			if u, ok := x.(*ast.UnaryExpr); ok && u.Op == token.AND {
+				x = ast.Unparen(u.X)
+			}
+			_, ok := x.(*ast.CompositeLit)
+			return ok
+		}
+		ast.Inspect(fn.Body, func(nd ast.Node) bool {
+			cl, ok := nd.(*ast.CompositeLit)
+			if !ok {
+				return true
+			}
+			t := info.TypeOf(cl)
+			if t == nil || !types.Identical(t, pt.Type()) {
+				return true
+			}
+			v := litField(cl, "SignedLatency")
+			if v == nil {
+				return true
+			}
+			n++
+			fresh := isFreshLit(v)
+			if id, isID := ast.Unparen(v).(*ast.Ident); isID && !fresh {
+				if obj := info.Uses[id]; obj != nil {
+					fresh = true
+					seen := 0
+					ast.Inspect(fn.Body, func(k ast.Node) bool {
+						switch a := k.(type) {
+						case *ast.AssignStmt:
+							for i, l := range a.Lhs {
+								lid, ok := ast.Unparen(l).(*ast.Ident)
+								if !ok || (info.Uses[lid] != obj && info.Defs[lid] != obj) {
+									continue
+								}
+								seen++
+								if len(a.Rhs) != len(a.Lhs) || !isFreshLit(a.Rhs[i]) {
+									fresh = false
+								}
+							}
+						case *ast.ValueSpec:
+							for i, nm := range a.Names {
+								if info.Defs[nm] == obj && i < len(a.Values) {
+									seen++
+									if !isFreshLit(a.Values[i]) {
+										fresh = false
+									}
+								}
+							}
+						}
+						return true
+					})
+					fresh = fresh && seen > 0
+				}
+			}
+			r.Check("I2", fn.Name+":measurement-object-created-with-the-participant", fresh, v.Pos(),
+				"the participant built in %s gets %s as its measurement object, which is not created there: a measurement begun for another participant (an earlier session of the connection) carries on under this one", fn.Name, r.P.exprStr(v))
+			return true
+		})
+	}
+	r.Floor("I2", "participant literals with a measurement object", n, 1)
 }
